@@ -174,16 +174,33 @@ def strEntries : List (Val × Val) → Option (List (String × Val))
   | (.str k, v) :: rest => (strEntries rest).map fun r => (k, v) :: r
   | _ => none
 
+/-- The no-key branch of `fetch{json,yaml,toml}.run_step`: `context.update(payload)` — `dict.update`, a
+    TOP-LEVEL overwrite: every top-level key of the parsed mapping is (re)bound to the parsed value AS
+    IT IS (a list / table already under that name is REPLACED, not appended to or merged into), every
+    other key of the context is left alone, and nothing that was read is run through the formatter
+    (`Context.merge` — deep, additive, interpolating; what `contextmerge` uses — is NOT what the fetch
+    steps call). json / yaml: a top level that is not a mapping is a `TypeError`. -/
+def storeRoot (ctx : Ctx) (payload : Val) : Except Exc Ctx :=
+  match payload with
+  | .dict kvs =>
+    match strEntries kvs with
+    | some es => .ok (ctx.update es)
+    | none => .error (outOfDomain "non-string key merged into context")
+  | _ => .error (typeError "input should describe a mapping at the top level")
+
+/-- The value `dict.update(entries)` leaves under `k`: that of the LAST entry with that key. -/
+def lastOf : List (String × Val) → String → Option Val
+  | [], _ => none
+  | (k', v) :: rest, k =>
+    match lastOf rest k with
+    | some w => some w
+    | none => if k' = k then some v else none
+
 /-- Where the parsed payload goes: `if destination_key: context[key] = payload` else it must be a
-    mapping (json, yaml: TypeError otherwise; toml is a mapping by construction) merged at root. -/
+    mapping (json, yaml: TypeError otherwise; toml is a mapping by construction) merged at root
+    (`storeRoot`). -/
 def store (ctx : Ctx) (key : Option Val) (payload : Val) : Except Exc Ctx :=
-  let atRoot : Except Exc Ctx :=
-    match payload with
-    | .dict kvs =>
-      match strEntries kvs with
-      | some es => .ok (ctx.update es)
-      | none => .error (outOfDomain "non-string key merged into context")
-    | _ => .error (typeError "input should describe a mapping at the top level")
+  let atRoot : Except Exc Ctx := storeRoot ctx payload
   match key with
   | none => atRoot
   | some k =>
@@ -222,6 +239,56 @@ def fetchWith {τ} (lenGuard : Bool) (f : Format) (c : Codec τ) (fuel : Nat) (c
 /-- `fetch*.run_step` as it is now. -/
 def fetch {τ} (f : Format) (c : Codec τ) (fuel : Nat) (ctx : Ctx) (files : Files τ) : Except Exc Ctx :=
   fetchWith true f c fuel ctx files
+
+/-- The payload branch of `filewrite*.run_step` on the FORMATTED step input:
+    `payload = input_context.get('payload', sentinel)`; `if payload is sentinel: payload =
+    context.get_formatted_value(context)` — the WHOLE context as one mapping through the formatter, so
+    every string node of it, the top-level KEY NAMES included, is replaced by its formatted value (the
+    step's own input entry `fileWriteX` is part of the context and is written too) — else the `payload`
+    entry (already formatted with the input; TOML refuses a falsy one). `writePayload_eq_payloadFor`
+    (Props/Lemmas/C16_Glue.lean): `writePayload` is `formattedInput`, `pathOf`, then this. -/
+def payloadFor (f : Format) (fuel : Nat) (ctx : Ctx) (input : List (Val × Val)) : Except Exc Val :=
+  match dictGet? input (.str "payload") with
+  | none => fmtVal fuel ctx (Ctx.toVal ctx)
+  | some payload =>
+    if f = .toml && !payload.truthy then
+      .error (keyHasNoValue "payload must have a value to write to output TOML document.")
+    else .ok payload
+
+/-! ### Several steps on ONE context
+
+  A pipeline runs its steps on one `Context` object: `Step.run_pipeline_steps` puts the step's `in`
+  arguments into the context (`set_step_input_context`), runs the step, and takes them out again
+  (`unset_step_input_context`). Between two steps a file may also be changed from outside (`put`).
+  What a second fetch to the context root sees is therefore the context the first one left. -/
+
+inductive COp (τ : Type) where
+  | put (path : String) (t : τ)              -- the file is (re)placed on disk; not a pypyr step
+  | write (f : Format) (input : Val)         -- filewriteX with `in: {fileWriteX: input}`
+  | fetch (f : Format) (input : Val)         -- fetchX with `in: {fetchX: input}`
+
+/-- One step: the context and the files afterwards. -/
+def stepC {τ} (c : Format → Codec τ) (fuel : Nat) (ctx : Ctx) (files : Files τ) :
+    COp τ → Except Exc (Ctx × Files τ)
+  | .put path t => .ok (ctx, files.set path t)
+  | .write f input =>
+    let cx := ctx.set f.writeKey input
+    match fileWrite f (c f) fuel cx files with
+    | .ok fs => .ok (cx.erase f.writeKey, fs)
+    | .error e => .error e
+  | .fetch f input =>
+    match fetch f (c f) fuel (ctx.set f.fetchKey input) files with
+    | .ok cx => .ok (cx.erase f.fetchKey, files)
+    | .error e => .error e
+
+/-- The steps one after the other on the same context; the context after every step, up to and
+    including the first step that raises (the pipeline stops there). -/
+def runC {τ} (c : Format → Codec τ) (fuel : Nat) : Ctx → Files τ → List (COp τ) → List (Except Exc Ctx)
+  | _, _, [] => []
+  | ctx, files, op :: ops =>
+    match stepC c fuel ctx files op with
+    | .error e => [.error e]
+    | .ok (cx, fs) => .ok cx :: runC c fuel cx fs ops
 
 /-- `pypyr.parser.{json,yaml,toml}file.get_parsed_context`: the parsed file must be a mapping
     (json/yaml check it, toml is one by construction); it becomes the initial context. -/
